@@ -158,6 +158,15 @@ Theorem C18_feeder_never_stuck_after_stop :
 Proof. exact never_stuck_lemma. Qed.
 Print Assumptions C18_feeder_never_stuck_after_stop.
 
+(* The main loop holds at most one chunk: of the chunks it has taken from the queue all but one are forwarded or dropped
+   (unloadable); so after the stop request it takes - and loads from disk - at most one chunk more than it forwards or
+   drops.  (Observable on the real bufferer: recovered chunks minus the gauge queued_chunks{persistent}.) *)
+Theorem C18_feeder_loop_holds_one_chunk :
+  forall cfg evs s, f_run cfg f_init evs = Some s ->
+  (f_loops s <= length (f_out s) + length (f_bad s) + 1)%nat.
+Proof. exact loop_holds_one_chunk_lemma. Qed.
+Print Assumptions C18_feeder_loop_holds_one_chunk.
+
 (* The VARIANT with a non-blocking send in front of the two-way select (not the code of the repository; seeded to
    test this check) violates all of it, for every backlog length n and every window w > 0: after the stop request,
    with a consumer that takes each chunk at once, every step of the feeder is the ONLY step it can make (the stop
@@ -177,13 +186,13 @@ Proof. exact fast_path_variant_refuted_lemma. Qed.
 Print Assumptions C18_fast_path_variant_refuted.
 
 (* test on literals (non-vacuity): 40 chunk files, window 8, stop after 5 chunks, 3 selects resolved for the send:
-   3 forwards after the stop, 8 received, 32 left to the cleanup, stopped; the variant forwards them without a choice
+   3 forwards after the stop, 8 received, 32 left to the cleanup, 9 taken from the queue by the main loop, stopped; the variant forwards them without a choice
    and (with the scheduler preferring the stop branch) never reaches it *)
 Theorem C18_backlog_example :
   let cfg := FCFG 8 500 false in
-  replay_backlog cfg 40 5 3 = Some (3, 3, 8, 32, true)%nat /\
+  replay_backlog cfg 40 5 3 = Some (3, 3, 8, 32, 9, true)%nat /\
   (exists s, f_run cfg f_init (accepts (backlog 40) ++ rep 5 pass_one ++ [EDestroy] ++ rep 3 pass_one) = Some s /\
              f_closed s = true /\ fwd_after s = 3%nat /\ length (f_queue s) = 32%nat) /\
-  replay_backlog (FCFG 8 500 true) 40 5 3 = Some (0, 3, 8, 0, false)%nat.
+  replay_backlog (FCFG 8 500 true) 40 5 3 = Some (0, 3, 8, 0, 9, false)%nat.
 Proof. exact backlog_example_lemma. Qed.
 Print Assumptions C18_backlog_example.
